@@ -58,6 +58,8 @@ pub struct Player {
     pub last_ledger: Value,
     pub light_obs: bool,
     pub skip_obs: bool,
+    /// first answer seen for (kind, object, position): a finalised or pending object never changes while it stays where it is
+    pub memo: BTreeMap<String, String>,
     pub cell_order: Vec<String>,
     pub u_probe_addr: BTreeSet<String>,
     pub digest_on: bool,
@@ -134,6 +136,7 @@ impl Player {
             last_ledger: json!({"bals": [], "supply": []}),
             light_obs: false,
             skip_obs: false,
+            memo: BTreeMap::new(),
             cell_order: Vec::new(),
             u_probe_addr: BTreeSet::new(),
             digest_on: false,
@@ -674,6 +677,11 @@ impl Player {
 
     /// builds a signed legacy transaction with the harness's own key material
     fn raw_tx(&mut self, step: &Value) -> (Vec<u8>, String, Value) {
+        let (raw, name, abs, _) = self.raw_tx_with_sighash(step);
+        (raw, name, abs)
+    }
+
+    fn raw_tx_with_sighash(&mut self, step: &Value) -> (Vec<u8>, String, Value, B256) {
         use alloy_consensus::{SignableTransaction, TxLegacy};
         use alloy_signer::SignerSync;
         let signer_name = step["signer"].as_str().unwrap_or("k1").to_string();
@@ -699,24 +707,31 @@ impl Player {
             value: U256::ZERO,
             input: bytes.into(),
         };
-        let sig = signer.sign_hash_sync(&tx.signature_hash()).unwrap();
+        let sighash = tx.signature_hash();
+        let sig = signer.sign_hash_sync(&sighash).unwrap();
         let signed = tx.into_signed(sig);
         let mut raw = Vec::new();
         signed.rlp_encode(&mut raw);
         let abs = Self::abs_tx(step, &kind, &signer_name);
-        (raw, signer_name, abs)
+        (raw, signer_name, abs, sighash)
     }
 
     fn do_transact(&mut self, step: &Value) -> Value {
         let hash = names::hash_of_token(step["hash"].as_str().unwrap_or("zero"), 0);
         let txid = names::txid_of_token(step["txid"].as_str().unwrap_or("zero"));
-        let (mut raw, signer_name, abs) = self.raw_tx(step);
+        let (mut raw, signer_name, abs, sighash) = self.raw_tx_with_sighash(step);
         let chain = step["chain"].as_str().unwrap_or("own");
         if chain == "garbage" {
             raw = vec![0xc1, 0x80, 0xff];
         }
-        // own derivation of the identity: keccak of the raw bytes
-        let id = self.names.tx_token(&keccak256(&raw));
+        // own derivation of the identity: keccak of the raw bytes - except on mainnet for a transaction submitted while
+        // the block under construction is below 929 000, where it is the signing hash
+        let sig_regime = (self.net == "mainnet" || self.net == "bitcoin") && {
+            let h = self.inst.call("eth_blockNumber", json!([])).ok().and_then(u64_of).unwrap_or(0);
+            let next = if h == 0 && !self.inst.call("eth_getBlockByNumber", json!(["0", false])).is_ok() { 0 } else { h + 1 };
+            next < 929_000
+        };
+        let id = self.names.tx_token(&if sig_regime && chain != "garbage" { sighash } else { keccak256(&raw) });
         self.u_tx.insert(id.clone());
         self.u_addr.insert(signer_name);
         let mut params = serde_json::Map::new();
@@ -823,6 +838,8 @@ impl Player {
         for h in lo..=top {
             let r = self.get("eth_getBlockByNumber", json!([format!("{}", h), false]));
             let Some(b) = r.ok().cloned() else {
+                let prefix = format!("blk:{}:", h);
+                self.memo.retain(|k, _| !k.starts_with(&prefix));
                 blocks.push(json!({"h": h, "hash": "NULL"}));
                 continue;
             };
@@ -895,6 +912,27 @@ impl Player {
                     parts.push(opi_string(&tr));
                 }
             }
+            {
+                let place = format!("blk:{}:{}", h, b["hash"].as_str().unwrap_or("?"));
+                let prefix = format!("blk:{}:", h);
+                let stale: Vec<String> = self.memo.keys().filter(|k| k.starts_with(&prefix) && !k.starts_with(&place)).cloned().collect();
+                for k in stale {
+                    self.memo.remove(&k);
+                }
+                for (kind, v) in [("b", &b), ("s", &bts)] {
+                    let now = normalise(v);
+                    let key = format!("{}:{}", place, kind);
+                    match self.memo.get(&key) {
+                        None => {
+                            self.memo.insert(key, now);
+                        }
+                        Some(first) => {
+                            flag!("stable", *first == now, "the {} of block {} changed since it was first served: {} -> {}", if kind == "b" { "header/tx list" } else { "trace string" }, h,
+                                first.chars().take(300).collect::<String>(), now.chars().take(300).collect::<String>());
+                        }
+                    }
+                }
+            }
             let want = parts.join("|");
             flag!("blk_trace", bts.as_str() == Some(want.as_str()), "trace string of block {}: {:?} vs {:?}", h, bts.as_str().map(|x| x.chars().take(120).collect::<String>()), want.chars().take(120).collect::<String>());
             flag!("blk_trace_hash", bth.as_str() == Some(sha256::digest(want.clone()).as_str()), "trace hash of block {}", h);
@@ -922,8 +960,32 @@ impl Player {
             let insc = self.get("brc20_getInscriptionIdByTxHash", json!([hx])).ok().cloned().unwrap_or(Value::Null);
             let trace = if tr.is_null() { "no" } else { "yes" };
             if t.is_null() && rc.is_null() {
+                let prefix = format!("tx:{}:", id);
+                self.memo.retain(|k, _| !k.starts_with(&prefix));
                 txs.push(json!({"id": id, "present": false, "trace": trace}));
                 continue;
+            }
+            // immutability: the transaction, its receipt and its call trace are what they were when first seen at this place
+            {
+                let place = format!("tx:{}:{}:{}", id, t["blockHash"].as_str().unwrap_or("?"), t["transactionIndex"].as_str().unwrap_or("?"));
+                let prefix = format!("tx:{}:", id);
+                let stale: Vec<String> = self.memo.keys().filter(|k| k.starts_with(&prefix) && !k.starts_with(&place)).cloned().collect();
+                for k in stale {
+                    self.memo.remove(&k);
+                }
+                for (kind, v) in [("t", &t), ("r", &rc), ("c", &tr)] {
+                    let now = normalise(v);
+                    let key = format!("{}:{}", place, kind);
+                    match self.memo.get(&key) {
+                        None => {
+                            self.memo.insert(key, now);
+                        }
+                        Some(first) => {
+                            flag!("stable", *first == now, "the {} of tx {} changed since it was first served: {} -> {}", match kind { "t" => "transaction", "r" => "receipt", _ => "call trace" }, id,
+                                first.chars().take(300).collect::<String>(), now.chars().take(300).collect::<String>());
+                        }
+                    }
+                }
             }
             flag!("tx_rc_both", !t.is_null() && !rc.is_null(), "tx {} has only one of transaction/receipt", id);
             let b = u64_of(&t["blockNumber"]).unwrap_or(u64::MAX);
